@@ -84,7 +84,7 @@ Proof.
       rewrite <- E3 at 1. rewrite mk_member_eff.
       destruct (mk_member s h3 None 0) as [m s2]. cbn [fst snd] in *. rewrite (IH s2).
       destruct (update_members c s2 r true skip) as [[ms hs] s3]. unfold liftM. cbn [fst snd map]. rewrite E3. reflexivity.
-    + set (h3 := with_size_name (set_pax h1 (pax_set K_replaces_content V_false (h_pax h1))) 0 (h_name h1)).
+    + set (h3 := with_size_name (set_pax h1 (pax_set K_replaces_content V_false (keep_size h1))) 0 (h_name h1)).
       assert (E3 : effh c h3 = h3) by (apply effh_size0; reflexivity).
       rewrite <- E3 at 1. rewrite mk_member_eff.
       destruct (mk_member s h3 None 0) as [m s2]. cbn [fst snd] in *. rewrite (IH s2).
